@@ -211,7 +211,7 @@ func checkReserve(c *core.Ctx, l *core.Ledger) {
 				return
 			}
 			fa, ok := st.Addr.(*ssa.FieldAddr)
-			if !ok || core.FieldOf(fa) == nil || core.FieldOf(fa).Name() != "decls" {
+			if !ok || core.FieldOf(fa) == nil || core.FieldName(core.FieldOf(fa)) != "decls" {
 				return
 			}
 			if k, isC := st.Val.(*ssa.Const); isC && k.IsNil() {
@@ -367,7 +367,7 @@ func moduleTypesKinds(c *core.Ctx) kindSet {
 				return
 			}
 			fld, _ := core.LoadedField(mu.Map)
-			if fld == nil || fld.Name() != "Types" {
+			if fld == nil || core.FieldName(fld) != "Types" {
 				return
 			}
 			switch v := mu.Value.(type) {
@@ -465,7 +465,7 @@ func checkSwitchPanics(c *core.Ctx, l *core.Ledger, rule string, rels []string) 
 							onlyTypes = false
 							continue
 						}
-						if fld, _ := core.LoadedField(lk.X); fld == nil || fld.Name() != "Types" {
+						if fld, _ := core.LoadedField(lk.X); fld == nil || core.FieldName(fld) != "Types" {
 							onlyTypes = false
 						}
 					}
